@@ -31,6 +31,8 @@ Extra == <<
   [n |-> "depends_on optional", top |-> FALSE, p |-> <<"depends_on">>, v |-> M2("db", M3("condition", S("service_healthy"), "required", B(FALSE), "restart", B(TRUE)), "cache", M2("condition", S("service_started"), "required", B(TRUE)))],
   [n |-> "env_file", top |-> FALSE, p |-> <<"env_file">>, v |-> Sq2(S("./a.env"), M2("path", S("./b.env"), "required", B(FALSE)))],
   [n |-> "ssh default", top |-> FALSE, p |-> <<"build">>, v |-> M2("context", S("."), "ssh", Sq1(S("default")))],
+  [n |-> "env_file same file spelled twice", top |-> FALSE, p |-> <<"env_file">>, v |-> L(<<S("./a.env"), S("b.env"), S("a.env")>>)],
+  [n |-> "ssh key without path", top |-> FALSE, p |-> <<"build">>, v |-> M2("context", S("."), "ssh", M2("mykey", Null, "default", Null))],
   [n |-> "ssh key path", top |-> FALSE, p |-> <<"build">>, v |-> M2("context", S("."), "ssh", Sq1(S("k1=/p1")))],
   [n |-> "ssh keys", top |-> FALSE, p |-> <<"build">>, v |-> M2("context", S("."), "ssh", Sq2(S("k1=/p1"), S("k2=/p2")))],
   [n |-> "extra_hosts", top |-> FALSE, p |-> <<"extra_hosts">>, v |-> Sq2(S("h1=10.0.0.1"), S("h2=::1"))],
@@ -40,7 +42,7 @@ Extra == <<
   [n |-> "command quoting", top |-> FALSE, p |-> <<"command">>, v |-> L(<<S("sh"), S("-c"), S("echo \"a b\" $$HOME")>>)],
   [n |-> "devices", top |-> FALSE, p |-> <<"devices">>, v |-> Sq1(S("/dev/a:/dev/b:rw"))],
   [n |-> "device requests", top |-> FALSE, p |-> <<"deploy">>, v |-> M1("resources", M1("reservations", M1("devices", Sq1(M3("capabilities", Sq1(S("gpu")), "count", I(2), "driver", S("nvidia"))))))],
-  [n |-> "gpus all", top |-> FALSE, p |-> <<"gpus">>, v |-> S("all")],
+  [n |-> "gpus all", top |-> FALSE, p |-> <<"gpus">>, v |-> Sq1(M2("driver", S("nvidia"), "count", S("all")))],
   [n |-> "develop watch", top |-> FALSE, p |-> <<"develop">>, v |-> M1("watch", Sq1(M3("path", S("./src"), "action", S("sync"), "target", S("/app"))))],
   [n |-> "credential_spec", top |-> FALSE, p |-> <<"credential_spec">>, v |-> M1("file", S("spec.json"))],
   [n |-> "blkio", top |-> FALSE, p |-> <<"blkio_config">>, v |-> M2("weight", I(300), "device_read_bps", Sq1(M2("path", S("/dev/sda"), "rate", S("12mb"))))],
@@ -53,8 +55,8 @@ Extra == <<
   [n |-> "ipam", top |-> TRUE, p |-> <<"networks", "n1">>, v |-> M2("driver", S("bridge"), "ipam", M2("driver", S("default"), "config", Sq1(M2("subnet", S("10.0.0.0/24"), "gateway", S("10.0.0.1")))))],
   [n |-> "external network", top |-> TRUE, p |-> <<"networks", "n2">>, v |-> M2("external", B(TRUE), "name", S("realnet"))],
   [n |-> "volume driver", top |-> TRUE, p |-> <<"volumes", "data">>, v |-> M3("driver", S("local"), "driver_opts", M1("type", S("nfs")), "labels", M1("l", S("1")))],
-  [n |-> "config content", top |-> TRUE, p |-> <<"configs", "c1">>, v |-> M1("content", S("hello\nworld"))],
-  [n |-> "secret environment", top |-> TRUE, p |-> <<"secrets", "s1">>, v |-> M1("environment", S("SECVAR"))],
+  [n |-> "config content", top |-> TRUE, p |-> <<"configs", "c9">>, v |-> M1("content", S("hello\nworld"))],
+  [n |-> "secret environment", top |-> TRUE, p |-> <<"secrets", "s9">>, v |-> M1("environment", S("SECVAR"))],
   [n |-> "profiles", top |-> FALSE, p |-> <<"profiles">>, v |-> Sq1(S("debug"))],
   \* an extension whose value holds x- keys of its own, in a mapping and inside a list of mappings: user data, kept as written
   [n |-> "nested extension", top |-> TRUE, p |-> <<"x-deploy-hints">>, v |-> M3("region", S("eu"), "x-owner", S("team-a"), "targets", Sq1(M2("zone", S("a"), "x-weight", S("heavy"))))],
